@@ -115,6 +115,32 @@ func (p *pcNode) and(t *Term) *pcNode {
 	return &pcNode{p, t, d}
 }
 
+// implies: t (or its negation) is literally one of the conjuncts (bounded walk): +1 / -1 / 0.
+func (p *pcNode) implies(t *Term) int {
+	nt := Not(t)
+	k := 0
+	for n := p; n != nil && k < 4000; n = n.parent {
+		k++
+		if n.t == t {
+			return 1
+		}
+		if n.t == nt {
+			return -1
+		}
+		if n.t.op == OAnd {
+			for _, x := range flattenAnd(n.t) {
+				if x == t {
+					return 1
+				}
+				if x == nt {
+					return -1
+				}
+			}
+		}
+	}
+	return 0
+}
+
 func (p *pcNode) term() *Term {
 	r := TrueT
 	for n := p; n != nil; n = n.parent {
